@@ -23,6 +23,8 @@ import (
 	"verifharness/internal/gen"
 )
 
+var tAddress = reflect.TypeOf(sdk.Address{})
+
 const (
 	modeZero  = 0
 	modeEmpty = 1
@@ -35,6 +37,7 @@ type filler struct {
 	mode int
 	// msgPick >= 0 forces the message type chosen for sdk.Msg fields (StdTx with each Msg type)
 	msgPick int
+	mapCap  int
 }
 
 var msgCtors = []func() sdk.ProtoMsg{
@@ -65,7 +68,13 @@ func (f *filler) str() string {
 		return strings.Repeat("Z", 200) + "é"
 	}
 	if f.r.Chance(1, 6) {
-		return string(f.r.Bytes(1 + f.r.Intn(12))) // arbitrary bytes, possibly invalid UTF-8
+		// arbitrary *valid* UTF-8 (JSON cannot carry other strings: encoding/json replaces invalid
+		// bytes by U+FFFD, see design-notes/C38.md)
+		rs := make([]rune, 1+f.r.Intn(8))
+		for i := range rs {
+			rs[i] = rune([]int{0x20, 0x41, 0x7f, 0xe9, 0x2028, 0x1f600, 0x3c, 0x22, 0x5c, 0x09}[f.r.Intn(10)])
+		}
+		return string(rs)
 	}
 	return f.r.Pick(strAlphabet)
 }
@@ -237,6 +246,18 @@ func (f *filler) fill(v reflect.Value, depth int) {
 	case tPublicKey:
 		v.Set(reflect.ValueOf(f.pubKey(true)))
 		return
+	case tAddress:
+		// the JSON form of an address is only defined for 20 bytes or none
+		b := f.bytes(20)
+		if len(b) != 0 && len(b) != 20 {
+			b = f.r.Bytes(20)
+		}
+		if b == nil {
+			v.Set(reflect.Zero(t))
+		} else {
+			v.Set(reflect.ValueOf(sdk.Address(b)))
+		}
+		return
 	case tMsg, tProtoMsg:
 		k := f.msgPick
 		if k < 0 {
@@ -302,6 +323,9 @@ func (f *filler) fill(v reflect.Value, depth int) {
 		v.Set(s)
 	case reflect.Map:
 		n := f.n()
+		if f.mapCap > 0 && n > f.mapCap {
+			n = f.mapCap
+		}
 		if f.mode == modeZero || (f.mode == modeRand && n == 0 && f.r.Bool()) {
 			v.Set(reflect.Zero(t))
 			return
@@ -331,6 +355,13 @@ func (f *filler) fill(v reflect.Value, depth int) {
 		f.fill(p.Elem(), depth+1)
 		v.Set(p)
 	case reflect.Struct:
+		if t.Name() == "MsgStake" || t.Name() == "MsgProtoStake" {
+			// x.nodes.MsgProtoStake has no stable_marshaler: with >= 2 map entries its bytes follow Go's
+			// random map order, so byte comparisons are only meaningful for <= 1 entry
+			old := f.mapCap
+			f.mapCap = 1
+			defer func() { f.mapCap = old }()
+		}
 		for i := 0; i < t.NumField(); i++ {
 			sf := t.Field(i)
 			if sf.PkgPath != "" || strings.HasPrefix(sf.Name, "XXX_") {
